@@ -142,6 +142,115 @@ class Normalizer:
                 return False
         return True
 
+    def _is_generator_helper(self, f: FuncInfo) -> bool:
+        if f.qualname in self.known or f.qualname in getattr(self.prog, "renamed", {}).values():
+            return False
+        if f.kind not in ("function", "staticmethod") or f.decorators or f.parent is not None:
+            return False
+        a = f.node.args
+        if a.vararg or a.kwarg:
+            return False
+        ys = [n for n in _walk_own_stmt(f.node) if isinstance(n, (ast.Yield, ast.YieldFrom))]
+        if len(ys) != 1 or not isinstance(ys[0], ast.Yield) or ys[0].value is None:
+            return False
+        for n in _walk_own_stmt(f.node):
+            if isinstance(n, ast.Return) and n.value is not None:
+                return False
+            if isinstance(n, (ast.Global, ast.Nonlocal, ast.Await, ast.Try, ast.With)):
+                return False
+        # the yield must be a statement of its own
+        for n in _walk_own_stmt(f.node):
+            if isinstance(n, ast.Expr) and n.value is ys[0]:
+                return True
+        return False
+
+    def _expand_generator_loop(self, f: FuncInfo, s: ast.For) -> Optional[List[ast.stmt]]:
+        """for t in gen(args): BODY   ==>   <gen's loops, with `yield v` replaced by `t = v; BODY`>"""
+        if not isinstance(s.iter, ast.Call) or s.orelse:
+            return None
+        try:
+            c = self.res.callee(f, s.iter)
+        except Exception:
+            return None
+        g = c.func
+        if g is None or c.kind != "internal" or g.qualname not in self.generators:
+            return None
+        # the consumer's body must not break / continue / return at its own loop level (they would bind to the generator's loops)
+        for st in s.body:
+            for n in _walk_own_stmt(st, into_loops=False):
+                if isinstance(n, (ast.Break, ast.Continue)):
+                    return None
+            for n in _walk_own_stmt(st):
+                if isinstance(n, (ast.Return, ast.Yield, ast.YieldFrom)):
+                    return None
+        call = s.iter
+        if any(isinstance(a, ast.Starred) for a in call.args) or any(k.arg is None for k in call.keywords):
+            return None
+        self.counter += 1
+        tag = f"g{self.counter}"
+        params = [p.arg for p in g.node.args.posonlyargs + g.node.args.args] + [p.arg for p in g.node.args.kwonlyargs]
+        bound: Dict[str, ast.expr] = {}
+        if len(call.args) > len(g.node.args.posonlyargs + g.node.args.args):
+            return None
+        for p, a in zip(params, call.args):
+            bound[p] = a
+        for k in call.keywords:
+            if k.arg in bound or k.arg not in params:
+                return None
+            bound[k.arg] = k.value
+        for p in params:
+            if p not in bound:
+                d = g.default_of(p)
+                if d is None or not isinstance(d, ast.Constant):
+                    return None
+                bound[p] = copy.deepcopy(d)
+        locals_ = _assigned_names(g.node)
+        reassigned = _assigned_names_body(g.node)
+        mapping: Dict[str, object] = {}
+        prologue: List[ast.stmt] = []
+        for p in params:
+            a = bound[p]
+            if isinstance(a, (ast.Constant, ast.Name)) and p not in reassigned:
+                mapping[p] = a
+            else:
+                nm = f"{p}__{tag}"
+                mapping[p] = nm
+                prologue.append(ast.copy_location(ast.Assign([ast.Name(nm, ast.Store())], copy.deepcopy(a)), s))
+        for nm in locals_:
+            mapping.setdefault(nm, f"{nm}__{tag}")
+        for k, v in self._free_name_map(f, g).items():
+            mapping.setdefault(k, v)
+        body = copy.deepcopy(g.node.body)
+        if body and isinstance(body[0], ast.Expr) and isinstance(body[0].value, ast.Constant) and isinstance(body[0].value.value, str):
+            body = body[1:]
+        ren = _Renamer(mapping)
+        body = [ren.visit(b) for b in body]
+        consumer_target, consumer_body = s.target, s.body
+
+        class Y(ast.NodeTransformer):
+            def visit_Expr(self_, n):
+                if isinstance(n.value, ast.Yield):
+                    asg = ast.copy_location(ast.Assign([copy.deepcopy(consumer_target)], n.value.value), n)
+                    return [asg] + consumer_body
+                return n
+
+            def visit_FunctionDef(self_, n):
+                return n
+
+            def visit_Return(self_, n):
+                raise CannotInline("bare return in a generator")
+        try:
+            body = [x for b in body for x in (lambda r: r if isinstance(r, list) else [r])(Y().visit(b))]
+        except CannotInline:
+            return None
+        out = prologue + body
+        for st in out:
+            ast.fix_missing_locations(st)
+        self.log.append(f"{f.qualname} <- generator {g.qualname} (line {s.lineno})")
+        self.res._envs.pop(f.qualname, None)
+        self.res._calls.pop(f.qualname, None)
+        return out
+
     def run(self):
         if not self.known:
             return self
@@ -154,10 +263,13 @@ class Normalizer:
                     self.prog.func(q)
                 except Exception:
                     pass
+        self.generators: Dict[str, FuncInfo] = {}
         for q, f in list(self.prog.functions.items()):
             if self._is_helper(f):
                 self.helpers[q] = f
-        if not self.helpers:
+            elif self._is_generator_helper(f):
+                self.generators[q] = f
+        if not self.helpers and not self.generators:
             return self
         for q, f in list(self.prog.functions.items()):
             self._normalize_function(f)
@@ -167,7 +279,71 @@ class Normalizer:
                     self._expand_splats(f)
                 except CannotInline:
                     pass
+        touched = {l.split(" <- ")[0].split(":")[0] for l in self.log}
+        for q in touched:
+            f = self.prog.functions.get(q)
+            if f is not None:
+                self._coalesce_copies(f)
         return self
+
+    # ------------------------------------------------------------------ t__h = e; ...; a = t__h   ==>   a = e; ...
+    def _coalesce_copies(self, f: FuncInfo):
+        """A temporary introduced by an expansion that is defined once, then copied into a host variable that nothing touches
+        in between, *is* that variable.  Removes the copy so that def-use chains look as they did before the extraction."""
+        import re
+        tmp_re = re.compile(r".*__(h|c|r|d)\d+$")
+
+        def blocks(node):
+            for n in ast.walk(node):
+                if isinstance(n, (ast.FunctionDef, ast.AsyncFunctionDef)) and n is not node:
+                    continue
+                for fld in ("body", "orelse", "finalbody"):
+                    lst = getattr(n, fld, None)
+                    if isinstance(lst, list) and lst and isinstance(lst[0], ast.stmt):
+                        yield lst
+
+        def names_in(node, nm):
+            return [n for n in ast.walk(node) if isinstance(n, ast.Name) and n.id == nm]
+
+        changed = True
+        rounds = 0
+        while changed and rounds < 50:
+            changed = False
+            rounds += 1
+            for lst in list(blocks(f.node)):
+                for c, st in enumerate(lst):
+                    if not (isinstance(st, ast.Assign) and len(st.targets) == 1 and isinstance(st.targets[0], ast.Name)
+                            and isinstance(st.value, ast.Name) and tmp_re.match(st.value.id)):
+                        continue
+                    a, t = st.targets[0].id, st.value.id
+                    if a == t:
+                        continue
+                    ds = [d for d in range(c) if isinstance(lst[d], (ast.Assign, ast.AnnAssign)) and
+                          isinstance(lst[d].targets[0] if isinstance(lst[d], ast.Assign) and len(lst[d].targets) == 1 else getattr(lst[d], "target", None), ast.Name)
+                          and (lst[d].targets[0] if isinstance(lst[d], ast.Assign) else lst[d].target).id == t and lst[d].value is not None]
+                    if not ds:
+                        continue
+                    d = ds[-1]
+                    all_t = names_in(f.node, t)
+                    inside = [n for k in range(d, c + 1) for n in names_in(lst[k], t)]
+                    if len(all_t) != len(inside):
+                        continue        # the temporary lives on elsewhere
+                    stores_t = [n for n in inside if not isinstance(n.ctx, ast.Load)]
+                    if len(stores_t) != 1:
+                        continue
+                    if any(names_in(lst[k], a) for k in range(d + 1, c)):
+                        continue        # the host variable is read or written in between
+                    tgt_d = lst[d].targets[0] if isinstance(lst[d], ast.Assign) else lst[d].target
+                    if _read_on_exceptional_exit(f.node, a):
+                        continue
+                    for k in range(d, c):
+                        for n in names_in(lst[k], t):
+                            n.id = a
+                    del lst[c]
+                    changed = True
+                    break
+                if changed:
+                    break
 
     # ------------------------------------------------------------------ f(**{'a': x})  /  d = {'a': x}; d['b'] = y; f(**d)
     def _expand_splats(self, f: FuncInfo, _depth=0):
@@ -331,6 +507,10 @@ class Normalizer:
                 return self._rewrite_list(f, pre, depth + 1)
         except CannotInline:
             pre = []
+        if isinstance(s, ast.For):
+            rep = self._expand_generator_loop(f, s)
+            if rep is not None:
+                return pre + self._rewrite_list(f, rep, depth + 1)
         guard = 0
         while guard < 12:
             guard += 1
@@ -519,7 +699,8 @@ class Normalizer:
             raise CannotInline("statement form")
         if not always_exits(body):
             body = body + [ast.Return(None)]
-        simple_target = target is None or isinstance(target, ast.Name)
+        simple_target = target is None or isinstance(target, ast.Name) or \
+            (isinstance(target, (ast.Tuple, ast.List)) and all(isinstance(e, ast.Name) for e in target.elts))
         ret_name = None
         if not simple_target:
             # subscript / attribute / tuple target: evaluate into a temporary first (the target is stored exactly once)
@@ -681,6 +862,17 @@ class _TailReturns:
             if isinstance(value, (ast.Constant, ast.Name)):
                 return [ast.copy_location(ast.Pass(), ret)]
             return [ast.copy_location(ast.Expr(value), ret)]
+        t = self.target
+        if isinstance(t, (ast.Tuple, ast.List)) and isinstance(value, ast.Tuple) and len(t.elts) == len(value.elts) \
+                and all(isinstance(e, ast.Name) for e in t.elts) and not any(isinstance(e, ast.Starred) for e in value.elts):
+            # (a, b) = (x, y)  ==>  a = x; b = y   when no later value reads an earlier target
+            names = [e.id for e in t.elts]
+            safe = True
+            for i, v in enumerate(value.elts):
+                if any(isinstance(n, ast.Name) and n.id in names[:i] for n in ast.walk(v)):
+                    safe = False
+            if safe:
+                return [ast.copy_location(ast.Assign([copy.deepcopy(te)], v), ret) for te, v in zip(t.elts, value.elts)]
         return [ast.copy_location(ast.Assign([copy.deepcopy(self.target)], value), ret)]
 
     def block(self, stmts: List[ast.stmt]) -> List[ast.stmt]:
